@@ -105,7 +105,7 @@ theorem Inv.wigmDefeatStep1 (hA : LawfulArith A) (o : WigmOpts) (hz : o.batchZer
   cases hm : minVoteOf A s.hopeful with
   | none => exact h
   | some lv =>
-    simp only [hz, Bool.and_false, Bool.false_eq_true, if_false]
+    simp only [hz, Bool.and_false, Bool.false_and, Bool.false_eq_true, if_false]
     have hI1 := h.breakTie A (s.hopeful.filter (fun c => A.eq c.vote lv)) "Break tie (defeat)"
     have hfr := breakTie_frame A s (s.hopeful.filter (fun c => A.eq c.vote lv)) "Break tie (defeat)"
     have hmem := breakTie_mem A s (s.hopeful.filter (fun c => A.eq c.vote lv)) "Break tie (defeat)"
